@@ -20,6 +20,10 @@ EXC_CODE = {'IndexError': 1, 'IncomingDecodeError': 2, 'NamePartTooLongException
             'KeyError': 7, 'AssertionError': 8, 'error': 12, 'UnicodeDecodeError': 13}
 
 
+class WorkBudgetExceeded(BaseException):
+    """raised by the watchdog when decoding one datagram does not finish within 5 s"""
+
+
 def observe(data, scope=None, count_calls=False):
     """-> (val, info) ; info has the python objects for the oracle"""
     from zeroconf._protocol.incoming import DNSIncoming
@@ -31,10 +35,18 @@ def observe(data, scope=None, count_calls=False):
     try:
         if count_calls:
             sys.setprofile(prof)
+        import signal
+
+        def too_long(signum, frame):
+            raise WorkBudgetExceeded()
+        old_handler = signal.signal(signal.SIGALRM, too_long)
+        signal.setitimer(signal.ITIMER_REAL, 5.0)        # a datagram of at most 9000 bytes decodes in milliseconds: 5 s = not finishing
         try:
             m = DNSIncoming(data, scope_id=scope, now=NOW)
             ans = m.answers()
         finally:
+            signal.setitimer(signal.ITIMER_REAL, 0)
+            signal.signal(signal.SIGALRM, old_handler)
             if count_calls:
                 sys.setprofile(None)
     except BaseException as e:  # noqa: BLE001
@@ -285,6 +297,26 @@ def pointer_graphs(rng, tier):
         out.append(hdr(nq=1) + name + q)
     out.append(hdr(nq=1) + lbl('y' * 63) + b'\0' + q)
     out.append(hdr(nq=1) + bytes([64]) + b'y' * 64 + b'\0' + q)
+    # an over-long name (rejected where it stands: the record is skipped by its rdlength) that a later owner name reaches through a
+    # bare pointer - the labels of a rejected name are already in the decoder's name cache
+    for total in (254, 260, 300):
+        labels, remaining = [], total - 1
+        while remaining > 1:
+            n = min(63, remaining - 1)
+            labels.append('z' * n)
+            remaining -= n + 1
+        long_name = b''.join(lbl(l) for l in labels) + b'\0'
+        for rtype in (12, 5, 33, 47):
+            rd = (struct.pack('>HHH', 0, 0, 80) if rtype == 33 else b'') + long_name + (b'\x00\x01\x40' if rtype == 47 else b'')
+            first = rr(lbl('a') + b'\0', rtype, 1, 120, rd)
+            rd_off = 12 + len(lbl('a') + b'\0') + 10 + (6 if rtype == 33 else 0)
+            out.append(hdr(flags=0x8400, na=2) + first + rr(ptr(rd_off), 1, 1, 120, b'\1\2\3\4'))
+            out.append(hdr(flags=0x8400, na=3) + first + rr(ptr(rd_off), 1, 1, 120, b'\1\2\3\4') + rr(lbl('b') + ptr(rd_off), 16, 1, 120, b'\0'))
+    # NSEC type bitmaps: empty window blocks, several windows, windows out of order, a block running past the rdata
+    for bm in (b'\x00\x00', b'\x00\x00\x00\x01\x40', b'\x00\x01\x40\x00\x00', b'\x01\x00\x00\x00', b'\x00\x01\x40\x01\x02\xff\x01',
+               b'\x02\x01\x80\x00\x01\x40', b'\x00\x20' + b'\xff' * 32, b'\x00\x21' + b'\xff' * 33, b'\x00\x05\x40', b'\x00'):
+        out.append(hdr(flags=0x8400, na=1) + rr(lbl('n') + b'\0', 47, 0x8001, 120, ptr(12) + bm))
+        out.append(hdr(flags=0x8400, na=2) + rr(lbl('n') + b'\0', 47, 0x8001, 120, ptr(12) + bm) + rr(ptr(12), 1, 1, 120, b'\1\2\3\4'))
     # invalid UTF-8 inside labels (each byte becomes U+FFFD: text grows)
     out.append(hdr(nq=1) + lbl(b'\xff' * 30) + lbl('local') + b'\0' + q)
     out.append(hdr(nq=1) + lbl(b'\xe2\x82') + lbl(b'\xf4\x90\x80\x80') + b'\0' + q)
@@ -297,14 +329,13 @@ def small_alphabet(tier, rng):
     out = []
     h = hdr(nq=1)
     h2 = hdr(flags=0x8400, na=1)
-    maxlen = 4 if tier == 'quick' else 6
+    maxlen = 4 if tier == 'quick' else 5
     for k in range(0, maxlen + 1):
         for t in itertools.product(alpha, repeat=k):
             out.append(h + bytes(t))
             if k <= maxlen - 1:
                 out.append(h2 + bytes(t))
-    if tier == 'quick':
-        out = rng.sample(out, min(len(out), 4000))
+    out = rng.sample(out, min(len(out), 4000 if tier == 'quick' else 40000))
     return out
 
 
@@ -314,7 +345,7 @@ def generate(ctx):
     seeds = valid_messages(rng)
     for d in seeds:
         cases.append(('valid', d))
-    n_mut = 3000 if ctx.tier == 'quick' else 40000
+    n_mut = 3000 if ctx.tier == 'quick' else 20000
     for _ in range(n_mut):
         d = rng.choice(seeds)
         for _ in range(rng.choice([1, 1, 1, 2, 3])):
